@@ -30,6 +30,10 @@ Layers (bound iteration by sequence length n):
            other spellings (deviation-bounded)
     lit    core sequences whose regions hold string/char literals that look like comment
            openers or quotes (`"/*"`, `'"'`)
+    cmt    core sequences x comment shape (`/***/`, `/* x **/`, `/* * / */`, `/*/ x */`,
+           back-to-back, `// x \\`-continued, `//` holding `/*`, `/*` holding `//` and
+           directives ...) x position (end of each region, kept or skipped; trailing each
+           directive; everywhere at once)
     spell  core sequences with the directives spelled `  #   if\tc` / `#if /* #endif */ c // #else`
 """
 import functools
@@ -72,6 +76,32 @@ LITS = {      # name -> (line as written, the same line without its comment)
     "sq-dquote": ("char c@R = '\"'; /* \" */", "char c@R = '\"';"),
     "dq-sq": ('const char *t@R = "it\'s"; /* \' */', 'const char *t@R = "it\'s";'),
 }
+
+
+# comment shapes: name -> (lines, is_block).  A block comment can be followed by tokens on
+# its last line; a // comment ends with its (possibly continued) line.
+SHAPES = {
+    "empty": (["/**/"], True),
+    "star1": (["/***/"], True),
+    "star2": (["/****/"], True),
+    "x-starstar": (["/* x **/"], True),
+    "doc-starstar": (["/** x **/"], True),
+    "star-slash-apart": (["/* * / */"], True),
+    "slash-first": (["/*/ x */"], True),
+    "back-to-back": (["/* x *//* y */"], True),
+    "c-holds-cpp-and-directives": (["/* // x", "#endif", "#else", "// **/"], True),
+    "cpp-continued": (["// x \\", "int hidden; #endif"], False),
+    "cpp-holds-c": (["// x /* y"], False),
+}
+
+
+def comment_at(c, where):
+    """Lines of the case's comment shape if it is placed at position `where`
+    ('b<r>' = end of region r, 'd<r>' = trailing directive r), else None."""
+    sh = c.get("cshape")
+    if sh is None or c["cpos"] not in ("all", where):
+        return None
+    return SHAPES[sh]
 
 
 # ---------------------------------------------------------------------------- enumeration
@@ -238,7 +268,13 @@ def render(c, k):
     dirs = []
     lit = c.get("lit")
     for r, sym in enumerate(seq, 1):
-        L.append(directive_text(sym, K, c.get("spell")))
+        d = directive_text(sym, K, c.get("spell"))
+        cm = comment_at(c, "d%d" % r)
+        if cm:      # the comment trails the directive (and may run over several lines)
+            L.append(d + " " + cm[0][0])
+            L += cm[0][1:]
+        else:
+            L.append(d)
         dirs.append(len(L))
         a = len(L) + 1
         L.append("int r%d;" % r)
@@ -254,6 +290,14 @@ def render(c, k):
             # last line of the region: if the literal were taken for the start of a
             # comment, the next directive would be swallowed
             L.append(LITS[lit][0].replace("@R", str(r)))
+        cm = comment_at(c, "b%d" % r)
+        if cm:
+            # last lines of the region: a comment that is not terminated where it should be
+            # swallows the marker after it (kept region) or the next directive (skipped one)
+            if cm[1]:
+                L += cm[0][:-1] + [cm[0][-1] + " int q%d;" % r]
+            else:
+                L += cm[0] + ["int q%d;" % r]
         spans.append((a, len(L), active[r - 1]))
     L += ["#ifdef A%s" % K, "int pa = A%s;" % K, "#endif",
           "#ifdef B%s" % K, "int pb = B%s;" % K, "#endif"]
@@ -288,6 +332,8 @@ def model_tokens(c, info, lit_tokens):
             toks += tok.tokenize("int r%d; int s%d;" % (r, r))
             if c.get("lit"):
                 toks += lit_tokens(r)
+            if comment_at(c, "b%d" % r):
+                toks += tok.tokenize("int q%d;" % r)
     if info["final"]["A"] is not None:
         toks += tok.tokenize("int pa = %d;" % info["final"]["A"])
     if info["final"]["B"] is not None:
@@ -422,6 +468,7 @@ def layers_for(tier):
     ncore = 8 if thorough else 6
     ndev = 7 if thorough else 6
     nlit = 5 if thorough else 4
+    ncmt = 5 if thorough else 4
     nspell = 6 if thorough else 5
     plan = []
     for n in range(2, ncore + 1):
@@ -433,6 +480,8 @@ def layers_for(tier):
                 plan.append((n, "dev1", lambda n=n: dev1(core(n))))
         if n <= nlit:
             plan.append((n, "lit", lambda n=n: core(n)))
+        if n <= ncmt:
+            plan.append((n, "cmt", lambda n=n: core(n)))
         if n <= nspell:
             plan.append((n, "spell", lambda n=n: core(n)))
     return plan
@@ -474,6 +523,12 @@ def explore(ck):
             if layer == "lit":
                 for lit in LITS:
                     cases.append(dict(layer="lit:" + lit, var="u+def", seq=list(s), lit=lit))
+            elif layer == "cmt":
+                for sh in SHAPES:
+                    for pos in ["all"] + ["%s%d" % (w, r) for r in range(1, len(s) + 1)
+                                          for w in ("b", "d")]:
+                        cases.append(dict(layer="cmt:%s@%s" % (sh, pos), var="u+alt",
+                                          seq=list(s), cshape=sh, cpos=pos))
             elif layer == "spell":
                 for sp in ("ws", "cmt"):
                     cases.append(dict(layer="spell:" + sp, var="u+alt", seq=list(s), spell=sp))
